@@ -521,12 +521,18 @@ func (x *explorer) stepOne(s *State, gi int) (cont bool) {
 		}
 		switch v := r.(type) {
 		case needFork:
+			if e.forkSites != nil {
+				e.forkSites[e.whereAmI(s, gi)] += v.arity - 1
+			}
 			for i := v.arity - 1; i >= 1; i-- {
 				c := e.clone(s)
 				c.dec = append(append([]int(nil), s.dec...), i)
 				c.decPos = 0
 				c.cur = gi
 				if v.conds != nil {
+					if v.models != nil {
+						c.model = v.models[i]
+					}
 					e.pcAdd(c, v.conds[i])
 				}
 				x.stack = append(x.stack, c)
@@ -534,6 +540,9 @@ func (x *explorer) stepOne(s *State, gi int) (cont bool) {
 			s.dec = append(s.dec, 0)
 			s.decPos = 0
 			if v.conds != nil {
+				if v.models != nil {
+					s.model = v.models[0]
+				}
 				e.pcAdd(s, v.conds[0])
 			}
 		case goPanic:
@@ -848,6 +857,9 @@ func (x *explorer) transSafe(s *State, ops []*VisOp, t Trans) (cont bool) {
 				c.dec = append(append([]int(nil), s.dec...), i)
 				c.decPos = 0
 				if v.conds != nil {
+					if v.models != nil {
+						c.model = v.models[i]
+					}
 					e.pcAdd(c, v.conds[i])
 				}
 				c.forced = &t
@@ -856,6 +868,9 @@ func (x *explorer) transSafe(s *State, ops []*VisOp, t Trans) (cont bool) {
 			s.dec = append(s.dec, 0)
 			s.decPos = 0
 			if v.conds != nil {
+				if v.models != nil {
+					s.model = v.models[0]
+				}
 				e.pcAdd(s, v.conds[0])
 			}
 			cont = x.transSafe(s, ops, t)
